@@ -786,8 +786,12 @@ def main(tier):
             for rf in lst:
                 refusal_summary.setdefault(rf["function"] + ": " + rf["what"], 0)
                 refusal_summary[rf["function"] + ": " + rf["what"]] += 1
+        # an obligation that fails exactly as an *open known finding* lists is reported as KNOWN-FINDING and is not
+        # part of what this run claims proven: it is excluded from `obligations` and named separately
+        known_units = sorted({u for _, u in failing}) if (failing and not rep.new) else []
         coverage = {
-            "obligations": len(units),
+            "obligations": len(units) - len(known_units),
+            "obligations_excluded_as_open_known_findings": known_units,
             "discharged": discharged,
             "checker_cmd": "cargo kani -Z stubbing --target-dir .work/kani_x64_target --harness harnesses::<group> --exact  (crate .work/kani_x64, %d group harnesses, CBMC 6.11 / CaDiCaL)" % len(groups),
             "trusted_base": [
